@@ -384,8 +384,8 @@ func layoutVariants(l intoto.Layout) []variant {
 
 // payloads with values a "normalising" loader might touch: the content that was signed
 // must come back from Dump;LoadMetadata byte for byte
-var verbatimLinkKinds = []string{"digest-upper", "digest-mixed", "hashalg-upper", "spaces", "crlf", "unicode-nfc-nfd", "path-unclean", "html-chars"}
-var verbatimLayoutKinds = []string{"keyid-upper", "spaces", "crlf", "unicode-nfc-nfd", "html-chars", "rule-path-unclean"}
+var verbatimLinkKinds = []string{"digest-upper", "digest-mixed", "hashalg-upper", "spaces", "crlf", "unicode-nfc-nfd", "path-unclean", "html-chars", "escape-lookalikes", "escape-lookalikes-2"}
+var verbatimLayoutKinds = []string{"keyid-upper", "spaces", "crlf", "unicode-nfc-nfd", "html-chars", "rule-path-unclean", "escape-lookalikes"}
 
 func verbatimLink(r *lib.Rng, kind string) intoto.Link {
 	l := genLink(r)
@@ -420,6 +420,19 @@ func verbatimLink(r *lib.Rng, kind string) intoto.Link {
 		l.Name = "a<b>&c"
 		l.Command = []string{"sh", "-c", "a && b > c < d", "\u2028\u2029"}
 		l.ByProducts["stdout"] = "<script>&amp;</script> \"q\" \\ /"
+	case "escape-lookalikes":
+		// TEXT that looks like a JSON escape: a backslash followed by u0026, u003c, ... (1-4 backslashes)
+		l.Name = `step\u0026name`
+		l.Command = []string{"printf", `\u0026`, `\\u0026`, `\\\u0026`, `\\\\u0026`, `\u003c`, `\\u003e`, `&\u0026<\u003c>\u003e`, `a && b > c < d`}
+		l.ByProducts["stdout"] = `\u2028 \u0000 \n \t \" \/ \\n \\" <\u003c> a&&b \`
+		l.ByProducts["stderr"] = `\u0026`
+		l.Materials = map[string]intoto.HashObj{`src/\u003ca\u003e.c`: {"sha256": "01"}, "src/<a>.c": {"sha256": "02"}}
+		l.Environment["workdir"] = `C:\u0026\temp\new`
+	case "escape-lookalikes-2":
+		l.Name = `\`
+		l.Command = []string{`\`, `\\`, `\"`, `"\`, `\u`, `\u00`, `\u002`, `\U0026`, `\x26`, `&amp;`, `\&`, `\<`, `\>`, "\\\n", "\\\u2028", "&\\u0026"}
+		l.ByProducts["stdout"] = "\\u0026\n\\u003c\r\n\\u003e\t\\\\"
+		l.Products = map[string]intoto.HashObj{`out\u0026`: {"sha256": "03"}, `out&`: {"sha256": "04"}}
 	default:
 		panic("verbatimLink " + kind)
 	}
@@ -454,6 +467,12 @@ func verbatimLayout(r *lib.Rng, kind string) intoto.Layout {
 	case "rule-path-unclean":
 		l.Steps[0].ExpectedMaterials = [][]string{{"MATCH", "./src//*", "WITH", "PRODUCTS", "IN", "out/../out/", "FROM", "build"}}
 		l.Steps[0].ExpectedProducts = [][]string{{"CREATE", "out//a"}, {"DISALLOW", "*"}}
+	case "escape-lookalikes":
+		l.Readme = `\u0026 \\u0026 \\\u0026 \\\\u0026 & < > \u003c \u003e \u2028 \u0000 \n \t \" \/ <\u003c&\u0026`
+		l.Steps[0].Name = `build\u0026`
+		l.Steps[0].ExpectedCommand = []string{"printf", `\u0026`, `\\u003c`}
+		l.Steps[0].ExpectedMaterials = [][]string{{"ALLOW", `src/\u0026*`}, {"ALLOW", `src/\\u003c*&`}}
+		l.Inspect[0].Run = []string{"sh", "-c", `printf '\u003e' && echo \\u0026`}
 	default:
 		panic("verbatimLayout " + kind)
 	}
@@ -690,6 +709,7 @@ type runResult struct {
 	Coq     string
 	LibSigned, LibValid int // signatures made by the library with sound keys / of those valid under crypto/* directly
 	EnvSteps, EnvEqual  int // DSSE: steps at which GetPayload() was compared with the content decoded from the signed payload bytes
+	FailOps, FailSame   int // failed Sign / SetPayload operations / of those that left the dumped object unchanged
 	RtSteps, RtEqual    int // Dump;LoadMetadata operations / of those that left the content of GetPayload() as it was
 	Klass   string
 	Trivial bool
@@ -790,6 +810,7 @@ func runCase(in caseInput) (res runResult) {
 	var implSteps, oracleSteps []string
 	libSigned, libValid := 0, 0
 	envSteps, envEqual, rtSteps, rtEqual := 0, 0, 0, 0
+	failOps, failSame := 0, 0 // failed Sign / SetPayload operations / of those that left the dumped object as it was
 
 	md, err := freshObject(w, payloads[0])
 	if err != nil {
@@ -806,8 +827,9 @@ func runCase(in caseInput) (res runResult) {
 	observe := func(st string) {
 		v, verr := viewOf(md)
 		if verr != nil {
-			implSteps = append(implSteps, st+":DUMPFAIL")
-			oracleSteps = append(oracleSteps, st+":")
+			// Dump failed or wrote a file that is not JSON: the object cannot be written and loaded back
+			implSteps = append(implSteps, st+":DUMPED-FILE-UNREADABLE("+verr.Error()+")")
+			oracleSteps = append(oracleSteps, st+":DUMPED-FILE-READABLE")
 			return
 		}
 		cur := prescribedBytes(v, md)
@@ -845,6 +867,7 @@ func runCase(in caseInput) (res runResult) {
 
 	for _, op := range in.Ops {
 		st := "T"
+		wantOp := "T"
 		v, verr := viewOf(md)
 		if verr != nil {
 			res.Notes = append(res.Notes, "dump failed: "+verr.Error())
@@ -903,8 +926,14 @@ func runCase(in caseInput) (res runResult) {
 			}
 			// what the property demands of Sign itself
 			want := "F"
-			if c.Usable && c.Spec.Priv != "" {
+			if c.Usable && c.Spec.Priv != "" && cur != nil {
 				want = "T"
+			}
+			if st != "T" {
+				failOps++
+				if nv, nerr := viewOf(md); nerr == nil && sameView(v, nv) {
+					failSame++
+				}
 			}
 			observe(st)
 			oracleSteps[len(oracleSteps)-1] = want + oracleSteps[len(oracleSteps)-1][1:]
@@ -919,7 +948,9 @@ func runCase(in caseInput) (res runResult) {
 				nmd, lerr = intoto.LoadMetadata(p)
 			}
 			os.Remove(p)
-			rtSteps++
+			if before != nil { // content that has a canonical form must keep it
+				rtSteps++
+			}
 			if lerr != nil {
 				st = "F"
 			} else {
@@ -930,14 +961,30 @@ func runCase(in caseInput) (res runResult) {
 			}
 			coqOps = append(coqOps, "XDumpLoad")
 		case "setpayload":
-			nmd, ferr := freshObject(w, payloads[op.Payload])
-			if ferr != nil {
-				st = "F"
+			p := payloads[op.Payload]
+			wantOp = "T"
+			if env, ok := md.(*intoto.Envelope); ok {
+				// the real API: SetPayload on the (possibly signed) envelope; it must either
+				// replace content and signatures or fail and change nothing
+				if canonOfValue(p) == nil {
+					wantOp = "F"
+				}
+				st = lib.Recover(func() string { return status(env.SetPayload(p)) })
+				if st == "PANIC" {
+					st = "P"
+				}
 			} else {
-				md = nmd
+				md = &intoto.Metablock{Signed: p}
+			}
+			if st == "T" {
 				curPayload = op.Payload
 				signedNow, dirty = nil, false
 				distinctSigners = map[string]bool{}
+			} else {
+				failOps++
+				if nv, nerr := viewOf(md); nerr == nil && sameView(v, nv) {
+					failSame++
+				}
 			}
 			coqOps = append(coqOps, "XSetPayload p"+strconv.Itoa(op.Payload))
 		case "tamper":
@@ -1067,8 +1114,8 @@ func runCase(in caseInput) (res runResult) {
 			panic("unknown op " + op.Kind)
 		}
 		observe(st)
-		// harness-level edits always "succeed" for the oracle
-		oracleSteps[len(oracleSteps)-1] = "T" + oracleSteps[len(oracleSteps)-1][1:]
+		// harness-level edits always "succeed" for the oracle; SetPayload of an uncanonicalisable value must fail
+		oracleSteps[len(oracleSteps)-1] = wantOp + oracleSteps[len(oracleSteps)-1][1:]
 	}
 
 	// ---- tables of crypto truth (independent of the library under test) ----
@@ -1178,6 +1225,7 @@ func runCase(in caseInput) (res runResult) {
 	res.Coq = sb.String()
 	res.LibSigned, res.LibValid = libSigned, libValid
 	res.EnvSteps, res.EnvEqual, res.RtSteps, res.RtEqual = envSteps, envEqual, rtSteps, rtEqual
+	res.FailOps, res.FailSame = failOps, failSame
 	res.Trivial = libSigned == 0
 	if w == "dsse" && maxSigners >= 2 {
 		res.Klass = "F6-dsse-multi-sign"
@@ -1252,7 +1300,44 @@ func mkPayloads(r *lib.Rng, kind string) []payloadSpec {
 	for _, v := range vars {
 		out = append(out, payloadSpec{Kind: kind, Field: v.Field, JSON: lib.MustJSON(v.P)})
 	}
+	if l, ok := base.(intoto.Link); ok {
+		// LAST variant: a link that cannot be canonicalised (non-integral number) and that
+		// also differs in signed fields - SetPayload / Sign must refuse it and change nothing
+		bad := roundTrip(l)
+		bad.ByProducts["elapsed"] = 1.5
+		bad.Command = append(bad.Command, "backdoor")
+		out = append(out, payloadSpec{Kind: kind, Field: badField, JSON: lib.MustJSON(bad)})
+	}
 	return out
+}
+
+const badField = "uncanonicalisable"
+
+// number of ordinary variants (the uncanonicalisable one, if any, is last and excluded)
+func ordinaryVariants(ps []payloadSpec) int {
+	n := len(ps) - 1
+	if ps[n].Field == badField {
+		n--
+	}
+	return n
+}
+func badIndex(ps []payloadSpec) int {
+	if ps[len(ps)-1].Field == badField {
+		return len(ps) - 1
+	}
+	return -1
+}
+
+func sameView(a, b fileView) bool {
+	if a.Wrapper != b.Wrapper || a.Payload != b.Payload || string(a.Signed) != string(b.Signed) || len(a.Sigs) != len(b.Sigs) {
+		return false
+	}
+	for i := range a.Sigs {
+		if a.Sigs[i] != b.Sigs[i] {
+			return false
+		}
+	}
+	return true
 }
 
 // keep only the payload variants a history refers to (index 0 + used ones), renumbering
@@ -1368,7 +1453,8 @@ func randomCase(r *lib.Rng, maxLen int) (caseInput, string) {
 		return cand[r.Intn(len(cand))]
 	}
 	n := r.Range(1, maxLen)
-	nv := len(in.Payloads) - 1
+	nv := ordinaryVariants(in.Payloads)
+	bad := badIndex(in.Payloads)
 	edits := 0
 	for i := 0; i < n; i++ {
 		x := r.Intn(100)
@@ -1378,7 +1464,11 @@ func randomCase(r *lib.Rng, maxLen int) (caseInput, string) {
 		case x < 60:
 			in.Ops = append(in.Ops, opSpec{Kind: "dumpload"})
 		case x < 67:
-			in.Ops = append(in.Ops, opSpec{Kind: "setpayload", Payload: r.Range(0, nv)})
+			if bad >= 0 && r.Chance(1, 4) {
+				in.Ops = append(in.Ops, opSpec{Kind: "setpayload", Payload: bad})
+			} else {
+				in.Ops = append(in.Ops, opSpec{Kind: "setpayload", Payload: r.Range(0, nv)})
+			}
 		case x < 77:
 			if r.Chance(1, 4) {
 				in.Ops = append(in.Ops, opSpec{Kind: "tamper", Mut: "reindent"})
@@ -1472,7 +1562,7 @@ func systematic(r *lib.Rng, all bool) []struct {
 		}
 		// every payload field
 		for _, kind := range []string{"link", "layout"} {
-			nvar := len(mkPayloads(r.Fork(), kind)) - 1
+			nvar := ordinaryVariants(mkPayloads(r.Fork(), kind))
 			for f := 1; f <= nvar; f++ {
 				f := f
 				each(func(names []string) {
@@ -1553,6 +1643,20 @@ func systematic(r *lib.Rng, all bool) []struct {
 				})
 			})
 		}
+		// content that cannot be canonicalised, offered to a SIGNED object: SetPayload (envelope) /
+		// Sign (Metablock, Signed assigned) must fail and change nothing; the object still
+		// verifies / carries no new signature, and GetPayload() is still the signed content
+		each(func(names []string) {
+			emit(w, "link", "rejected-content", names, func(in *caseInput) {
+				b := badIndex(in.Payloads)
+				in.Ops = append(in.Ops, opSpec{Kind: "setpayload", Payload: b}, opSpec{Kind: "sign", Key: 0}, opSpec{Kind: "dumpload"})
+			})
+			emit(w, "link", "rejected-content", names, func(in *caseInput) {
+				b := badIndex(in.Payloads)
+				in.Ops = []opSpec{{Kind: "sign", Key: 0}, {Kind: "dumpload"}, {Kind: "setpayload", Payload: b}, {Kind: "sign", Key: 1},
+					{Kind: "setpayload", Payload: 1}, {Kind: "sign", Key: 1}}
+			})
+		})
 		// signing with the public half only
 		each(func(names []string) {
 			emit(w, "link", "sign-with-public-half", names, func(in *caseInput) {
@@ -1581,16 +1685,17 @@ func writeKeys(path string) {
 	}
 }
 
-func interopText(valid, made, envEq, envSteps, rtEq, rtSteps int) string {
+func interopText(valid, made, envEq, envSteps, rtEq, rtSteps, failSame, failOps int) string {
 	return fmt.Sprintf("signatures made by the library that verify with crypto/* directly over the prescribed bytes: %d of %d; "+
 		"envelope steps at which GetPayload() is the content of the signed payload bytes: %d of %d; "+
-		"Dump;LoadMetadata operations that left the content unchanged: %d of %d", valid, made, envEq, envSteps, rtEq, rtSteps)
+		"Dump;LoadMetadata operations that left the content unchanged: %d of %d; "+
+		"failed Sign / SetPayload operations that left the object unchanged: %d of %d", valid, made, envEq, envSteps, rtEq, rtSteps, failSame, failOps)
 }
 func (r runResult) interopImpl() string {
-	return interopText(r.LibValid, r.LibSigned, r.EnvEqual, r.EnvSteps, r.RtEqual, r.RtSteps)
+	return interopText(r.LibValid, r.LibSigned, r.EnvEqual, r.EnvSteps, r.RtEqual, r.RtSteps, r.FailSame, r.FailOps)
 }
 func (r runResult) interopOracle() string {
-	return interopText(r.LibSigned, r.LibSigned, r.EnvSteps, r.EnvSteps, r.RtSteps, r.RtSteps)
+	return interopText(r.LibSigned, r.LibSigned, r.EnvSteps, r.EnvSteps, r.RtSteps, r.RtSteps, r.FailOps, r.FailOps)
 }
 
 func put(w *lib.Writer, in caseInput, klass string) {
@@ -1600,7 +1705,7 @@ func put(w *lib.Writer, in caseInput, klass string) {
 	}
 	inp := lib.MustJSON(in)
 	w.Put(lib.Case{Klass: klass, Input: inp, Impl: res.Impl, Oracle: res.Oracle, CoqModel: res.Coq, Trivial: res.Trivial})
-	if res.LibSigned+res.EnvSteps+res.RtSteps > 0 {
+	if res.LibSigned+res.EnvSteps+res.RtSteps+res.FailOps > 0 {
 		// interoperability / content-preservation line (no model: plain demands of the property)
 		w.Put(lib.Case{Klass: "interop-" + klass, Input: inp, Impl: res.interopImpl(), Oracle: res.interopOracle(), Trivial: true})
 	}
